@@ -35,6 +35,9 @@ structure Defects where
   explicitNullHidesDefault : Bool
   /-- `query.rs:1063-1075`: `skip k` without `first` produces a statement the engine refuses -/
   skipWithoutFirstFails : Bool
+  /-- `query.rs:595-610`: `min`/`max` are applied to the JSON text of the values (`_json->'$.k'`), so numbers are
+      compared as texts (`max(9, 10) = 9`) -/
+  minMaxCompareText : Bool
   /-- `query.rs:269-285`: a sub-selection is joined to its parent through the parent's key; when it has the
       same key as its parent (`parents { parents { … } }`) it is joined to itself and only selects rows that
       reference themselves -/
@@ -44,12 +47,12 @@ deriving Repr, DecidableEq
 def Defects.asImplemented : Defects :=
   { cursorDropsAbsentKeys := true, orderIgnoresDefault := true, boolDefaultAsNumber := true,
     nullParamNeverMatches := true, explicitNullHidesDefault := true, skipWithoutFirstFails := true,
-    sameKeyShadowsParent := true }
+    minMaxCompareText := true, sameKeyShadowsParent := true }
 
 def Defects.none : Defects :=
   { cursorDropsAbsentKeys := false, orderIgnoresDefault := false, boolDefaultAsNumber := false,
     nullParamNeverMatches := false, explicitNullHidesDefault := false, skipWithoutFirstFails := false,
-    sameKeyShadowsParent := false }
+    minMaxCompareText := false, sameKeyShadowsParent := false }
 
 /-! ## Data -/
 
@@ -113,10 +116,14 @@ structure Order where
   desc : Bool
 deriving Repr, DecidableEq
 
+inductive AggFn | count | min | max
+deriving Repr, DecidableEq
+
 mutual
   inductive Sel
     | scalar (key : String) (fld : Nat)
     | id (key : String)
+    | agg (key : String) (fn : AggFn) (fld : Nat)     -- `key: count()`, `key: min(field)`, `key: max(field)`
     | sub (key : String) (fld : Nat) (optional : Bool) (q : Query)   -- optional: `nullable(key)`
   inductive Query
     | mk (ent : Nat) (sels : List Sel) (filters : List Filter) (orders : List Order)
@@ -317,6 +324,7 @@ mutual
   def subPresent (d : Defects) (s : Schema) (data : Data) : Nat → String → Row → Sel → Bool
     | _, _, _, .scalar _ _ => true
     | _, _, _, .id _ => true
+    | _, _, _, .agg _ _ _ => true
     | 0, _, _, .sub _ _ _ _ => false
     | fuel + 1, myKey, r, .sub key fld optional q =>
       match fieldDef s r.ent fld with
@@ -340,6 +348,7 @@ mutual
                 | some fd => J.ofVal (selected d fd (r.stored fld))
                 | none => .null)
         | .id key => (key, .id r.id)
+        | .agg key _ _ => (key, .null)
         | .sub key fld _ sq =>
           (key, match fieldDef s r.ent fld with
                 | some fd =>
@@ -357,10 +366,102 @@ mutual
       (evalRows d s data (fuel + 1) myKey q cands limited).map (project d s data fuel myKey q)
 end
 
+/-! ## Aggregates: `count()`, `min(f)`, `max(f)` grouped by the selected scalar fields -/
+
+def Sel.isAgg : Sel → Bool
+  | .agg _ _ _ => true
+  | _ => false
+
+def Query.isAggregate (q : Query) : Bool := q.sels.any Sel.isAgg
+
+/-- the fields a grouped query groups by: its scalar selections -/
+def groupFields (q : Query) : List Nat :=
+  q.sels.filterMap fun sel => match sel with | .scalar _ f => some f | _ => none
+
+def groupKey (q : Query) (r : Row) : List Val := (groupFields q).map fun f => (r.stored f).getD .null
+
+def sameKeys : List Val → List Val → Bool
+  | [], [] => true
+  | a :: s, b :: t => a.same b && sameKeys s t
+  | _, _ => false
+
+/-- the groups, in order of first appearance -/
+def groupRows (q : Query) : List Row → List (List Row)
+  | [] => []
+  | r :: rest =>
+    let gs := groupRows q rest
+    if gs.any (fun g => match g with | x :: _ => sameKeys (groupKey q x) (groupKey q r) | [] => false) then
+      gs.map fun g => match g with
+        | x :: _ => if sameKeys (groupKey q x) (groupKey q r) then r :: g else g
+        | [] => g
+    else [r] :: gs
+
+/-- decimal text of a number as the engine stores it (only integers and booleans occur) -/
+def numText (v : Val) : List Nat :=
+  match v with
+  | .int i => (toString i).toList.map Char.toNat
+  | .bool b => (if b then "true" else "false").toList.map Char.toNat
+  | .str s => 34 :: (s.map Char.toNat ++ [34])
+  | .null => "null".toList.map Char.toNat
+
+def ltNats : List Nat → List Nat → Bool
+  | [], [] => false
+  | [], _ :: _ => true
+  | _ :: _, [] => false
+  | a :: s, b :: t => a < b || (a == b && ltNats s t)
+
+/-- is `a` smaller than `b` for `min`/`max`? (the code compares the JSON texts) -/
+def aggLt (d : Defects) (a b : Val) : Bool :=
+  if d.minMaxCompareText then ltNats (numText a) (numText b) else a.lt b
+
+def pickBy (lt : Val → Val → Bool) : List Val → Option Val
+  | [] => none
+  | v :: rest =>
+    match pickBy lt rest with
+    | some w => if lt w v then some w else some v
+    | none => some v
+
+def aggValue (d : Defects) (fn : AggFn) (fld : Nat) (g : List Row) : J :=
+  match fn with
+  | .count => .int g.length
+  | .min =>
+    (match pickBy (aggLt d) (g.filterMap fun r => r.stored fld) with | some v => J.ofVal v | none => .null)
+  | .max =>
+    (match pickBy (fun a b => aggLt d b a) (g.filterMap fun r => r.stored fld) with | some v => J.ofVal v | none => .null)
+
+/-- a grouped query: the selected rows (filters, mandatory sub-selections) grouped by the selected scalars;
+    one result row per group, ordered by the order keys (a scalar of the group or an aggregate alias).
+    No limits or cursors in the covered subset. -/
+def evalGroups (d : Defects) (s : Schema) (data : Data) (fuel : Nat) (myKey : String) (q : Query)
+    (cands : List Row) : List J :=
+  let ok := cands.filter fun r =>
+    r.ent = q.ent && q.filters.all (filterHolds d s q.ent r) &&
+      q.sels.all (fun sel => subPresent d s data fuel myKey r sel)
+  -- without a grouping field there is exactly one group, even when no row is selected
+  let groups := if (groupFields q).isEmpty then [ok] else groupRows q ok
+  let rows : List (List (String × J)) := groups.map fun g =>
+    q.sels.filterMap fun sel =>
+      match sel with
+      | .scalar key fld =>
+        (match fieldDef s q.ent fld, g with
+         | some fd, x :: _ => some (key, J.ofVal (selected d fd (x.stored fld)))
+         | _, _ => some (key, .null))
+      | .agg key fn fld => some (key, aggValue d fn fld g)
+      | _ => none
+  let keyOf (row : List (String × J)) (o : Order) : Val :=
+    match (row.find? (·.1 = o.name)).map (·.2) with
+    | some (J.int i) => Val.int i
+    | some (J.str t) => Val.str t
+    | some (J.bool b) => Val.bool b
+    | _ => Val.null
+  let sorted := sortBy (fun a b => tupleLe q.orders (q.orders.map (keyOf a)) (q.orders.map (keyOf b))) rows
+  sorted.map J.obj
+
 /-- **the meaning of a query**: the rows of its entity that it selects, projected, in order.
     `rootKey` is the name under which the root selection appears (entity name or alias). -/
 def eval (d : Defects) (s : Schema) (data : Data) (fuel : Nat) (rootKey : String) (q : Query) : List J :=
-  evalList d s data fuel rootKey q data true
+  if q.isAggregate then evalGroups d s data fuel rootKey q data
+  else evalList d s data fuel rootKey q data true
 
 /-- does the engine refuse the query? (`skip` without `first` on the root or on an array sub-selection) -/
 def refused (d : Defects) (s : Schema) : Nat → Query → Bool → Bool
